@@ -81,6 +81,18 @@ def cases(rng, quick, gr):
         for pth, txt in subs.items():
             with open(pth, "w") as f:
                 f.write(txt)
+        # the variables of one included file are not visible in another one (nor in its metadata options)
+        prep, meas, meas2 = os.path.join(d, "prep.xbb"), os.path.join(d, "meas.xbb"), os.path.join(d, "meas2.xbb")
+        more = {prep: "name prep\nversion 1.0\nint n = 3\nfloat x9 = 0.5\nVac | 0\n",
+                meas: "name meas\nversion 1.0\ntarget gaussian (shots=n)\nMeasureX | 0\n",
+                meas2: "name meas2\nversion 1.0\ntype tdm (temporal_modes=n + 1)\nMeasureX(x9) | 0\n"}
+        for pth, txt in more.items():
+            with open(pth, "w") as f:
+                f.write(txt)
+        for order in ([prep, meas], [prep, meas2], [prep, prep, meas], [meas, prep], [prep, meas2, meas]):
+            yield {"tag": "include-scope", "text": "name f\nversion 1.0\n" + "".join('include "%s"\n' % pth for pth in order) + "\nprep | 0\nVac | 1\n",
+                   "files": dict(more)}
+        yield {"tag": "include-scope", "text": "name f\nversion 1.0\ninclude \"%s\"\n\nprep | 0\nVac(n) | 1\n" % prep, "files": dict(more)}
         inc = "".join('include "%s"\n' % pth for pth in subs)
         calls = ["sub | [2, 3, 3]", "sub | [2, 3, 2]", "sub | [2, 3, 4]", "sub | 2", "sub | [3, 3, 3]", "one | [1, 1]", "one | [0, 1]",
                  "sub(a=1) | [2, 3]", "one(x=0.5) | 3", "tsub | [2, 3]", "tsub(a=1) | [2, 3]", "tsub(b=1) | [2, 3]",
